@@ -253,6 +253,8 @@ class FakeSnowflakeCursor:
             )
 
         sql = transformed.sql(dialect="duckdb")
+        # what description describes: the statement whose result is returned, without the seeding statement
+        describe_sql = sql
 
         if transformed.find(exp.Select) and (seed := transformed.args.get("seed")):
             sql = f"SELECT setseed({seed}); {sql}"
@@ -398,7 +400,7 @@ class FakeSnowflakeCursor:
         self._arrow_table = self._duck_conn.fetch_arrow_table()
         self._rowcount = affected_count if affected_count is not None else self._arrow_table.num_rows
 
-        self._last_sql = result_sql or sql
+        self._last_sql = result_sql or describe_sql
         self._last_params = params
 
     def _log_sql(self, sql: str, params: Sequence[Any] | dict[Any, Any] | None = None) -> None:
